@@ -1034,7 +1034,13 @@ func (in *Interp) lvalue(e ast.Expr) *Cell {
 			in.fail(x, "selector is not a field")
 		}
 		var base Value
-		if in.addressable(x.X) {
+		isMapElem := false
+		if ix, ok := unparen(x.X).(*ast.IndexExpr); ok {
+			if _, isMap := info.TypeOf(ix.X).Underlying().(*types.Map); isMap {
+				isMapElem = true // a map element is a value (the zero value for a missing key), not a location
+			}
+		}
+		if !isMapElem && in.addressable(x.X) {
 			base = in.lvalue(x.X).V
 		} else {
 			base = in.expr(x.X)
